@@ -69,6 +69,10 @@ Defs == [
   \* an Optional field whose default is not None (an explicit None must stay None)
   D7  |-> [flavour |-> "dataclass",    module |-> "m1", py |-> "D7",  fields |-> << <<"owner", P("str"), FALSE>>, <<"limit", Opt(P("int")), TRUE, "100">> >>],
   N5  |-> [flavour |-> "namedtuple",   module |-> "m1", py |-> "N5",  fields |-> << <<"a", P("int"), FALSE>>, <<"b", Opt(P("int")), TRUE, "-1">> >>],
+  \* member names that collide with attributes of dict / tuple / object
+  TD6 |-> [flavour |-> "typeddict",    module |-> "m1", py |-> "TD6", fields |-> << <<"items", Coll("list", "builtin", P("int")), FALSE>>, <<"keys", P("str"), FALSE>> >>],
+  D8  |-> [flavour |-> "dataclass",    module |-> "m1", py |-> "D8",  fields |-> << <<"items", P("int"), FALSE>>, <<"values", P("date"), FALSE>> >>],
+  N6  |-> [flavour |-> "namedtuple",   module |-> "m1", py |-> "N6",  fields |-> << <<"count", P("int"), FALSE>>, <<"index", P("Decimal"), FALSE>> >>],
   \* a slotted dataclass without any field (no __dict__ to fall back on)
   E0  |-> [flavour |-> "dc_slots",     module |-> "m1", py |-> "E0",  fields |-> << >>],
   \* a second recursive class with the Python name of R1, in another module, with other field types
